@@ -132,15 +132,35 @@ def e2_specs(tier):
     out.append(dict(scenario="stopping", kwargs=kw, kind="safety", K=K, pred="cancel_bad", timeout=to, replay="stopping_replay"))
     out.append(dict(scenario="stopping", kwargs=kw, kind="safety", K=K, pred="late_stale", timeout=to, replay="stopping_replay"))
     out.append(dict(scenario="stopping", kwargs=kw, kind="deadlock", K=K, pred="caller_open", timeout=to, replay="stopping_replay"))
+  # a cancel by signal from another thread while the post is still on its way, then a cancel by the returned id: whole __post_event
+  kw = dict(deferred=True, times=2, kind="fifo", capacity=2, existing=0, pending=0, canceller="signal")
+  K = 30 if tier == "quick" else 40
+  out.append(dict(scenario="rejecting", kwargs=kw, kind="reach", K=K, pred="cancelled_by_id", timeout=to))
+  out.append(dict(scenario="rejecting", kwargs=kw, kind="safety", K=K, pred="survives_both_cancels", timeout=to, replay="rejecting_replay"))
+  if tier != "quick":
+    kw2 = dict(kw, deferred=False, kind="lifo")
+    out.append(dict(scenario="rejecting", kwargs=kw2, kind="safety", K=K, pred="survives_both_cancels", timeout=to, replay="rejecting_replay"))
   return out
+
+
+def signature(spec, r):
+  from vf.props import c12
+  if spec["scenario"] != "rejecting":
+    return c12.signature(spec, r)
+  real = r["replay"]["real"]
+  oc = real["outcome"]
+  if oc.get("error") or oc.get("canceller_error"):
+    return ("thread-crashed", "real run: %s; schedule: %s" % (oc, r["trace"]), True)
+  return ("source-survives-cancel", "cancel_events(signal) in another thread and then cancel_event(id) both returned, the source's run flag is still up (real run: %s); "
+          "schedule: %s" % (real, r["trace"]), bool(oc.get("cancelled_by_id")) and any(real["new_flag_up"]))
 
 
 def solver_part(tier, known):
   from vf.e2 import propbase, harness
-  from vf.props import c12
   FUNCTIONS.extend(x for x in propbase.functions_of("stopping", e2_scenarios(tier)[0][0]) if x not in FUNCTIONS)
+  FUNCTIONS.extend(x for x in propbase.functions_of("rejecting", dict(deferred=True, times=2, kind="fifo", capacity=2, existing=0, pending=0, canceller="signal")) if x not in FUNCTIONS)
   n = 8 if tier == "quick" else 30
-  out = propbase.run(e2_specs(tier), known, c12.signature, jobs=8, pred_signatures={"late_stale": "race:timer-check-then-post"},
+  out = propbase.run(e2_specs(tier), known, signature, jobs=8, pred_signatures={"late_stale": "race:timer-check-then-post"},
                      differential=lambda: harness.stopping_differential(dict(action="cancel_events", sources=2, times=1, other_source=True), n, seed=17))
   out["coverage"]["e2_bounds"] = [{"kwargs": k, "K": K} for k, K in e2_scenarios(tier)]
   return out
